@@ -210,6 +210,9 @@ func checkText(text string) (key, msg string) {
 			}
 		}
 		got := valueLit(ad.EvaluateAttr("x"))
+		if ok && got != nil && got.Kind == "str" && got.S != string(want) {
+			return "oldstring-differs", fmt.Sprintf("value text %q is rejected by the strict parser and read as one old-ClassAd string: the decoder stored %q, old ClassAd syntax (only \\\" is an escape, every other backslash is literal) yields %q", text, got.S, string(want))
+		}
 		if !ok || got == nil || got.Kind != "str" || got.S != string(want) {
 			return "decoder-accepts-unparsable", fmt.Sprintf("value text %q is not a ClassAd expression (nor one old-style quoted string) but the decoder stored %s", text, got)
 		}
@@ -319,6 +322,7 @@ type wattr struct {
 type wire struct {
 	Kind  string  `json:"kind"` // "wire"
 	Raw   bool    `json:"raw"`  // PutClassAdRaw with Pad-ded texts instead of PutClassAd
+	NonText bool  `json:"non_text"` // carries bytes that are not UTF-8 text: only "all receivers succeed and consume the same bytes" is in scope
 	BadT  bool    `json:"bad_type_name"` // a type slot holds something that is not a type name: the raw-text receiver must refuse it
 	Man   bool    `json:"manual"` // count, strings, marker + secret as two plain strings (what a C++ peer sends when it need not toggle crypto)
 	Opts  int     `json:"opts"`
@@ -531,23 +535,12 @@ func wireOracle(w wire, res *wireResult) (key, msg string) {
 		}
 		return "", ""
 	}
-	hasEq, binNull := false, false
+	hasEq := false
 	for _, n := range res.Names {
 		hasEq = hasEq || strings.Contains(n, "=")
 	}
 	if !res.GetOK && hasEq && res.RawOK && res.SkipOK {
 		return "attr-name-with-equals", fmt.Sprintf("an attribute whose (quoted) name contains '=' is rendered unquoted; the parsing receiver splits inside the name: %v", res.GetErr)
-	}
-	if w.Enc && (strings.HasPrefix(res.MyType, "\xad") || strings.HasPrefix(res.TargetType, "\xad")) {
-		binNull = true
-	}
-	if binNull && res.GetOK && res.RawOK && res.SkipOK {
-		if s, _ := res.Got.EvaluateAttrString("MyType"); strings.HasPrefix(res.MyType, "\xad") && s != res.MyType {
-			return "binnull-string", fmt.Sprintf("length-prefixed string mode: a string starting with byte 0xAD (HTCondor's NULL-string marker) is received as the empty string: MyType %q arrives as %q", res.MyType, s)
-		}
-		if s, _ := res.Got.EvaluateAttrString("TargetType"); strings.HasPrefix(res.TargetType, "\xad") && s != res.TargetType {
-			return "binnull-string", fmt.Sprintf("length-prefixed string mode: TargetType %q arrives as %q", res.TargetType, s)
-		}
 	}
 	if !res.GetOK {
 		return "getclassad-fails", fmt.Sprintf("GetClassAd: %v", res.GetErr)
@@ -557,6 +550,12 @@ func wireOracle(w wire, res *wireResult) (key, msg string) {
 	}
 	if !res.SkipOK {
 		return "skip-desync", fmt.Sprintf("SkipClassAdRaw does not consume the bytes GetClassAd consumes: %v", res.SkErr)
+	}
+	if w.NonText {
+		if !res.MaxOK || !res.BodyOK {
+			return "maxsize-differs", fmt.Sprintf("GetClassAdWithMaxSize / GetClassAdRawBody fail or consume other bytes: %v %v", res.MaxErr, res.BodyErr)
+		}
+		return "", "" // values of non-text strings are outside the statement (0xAD is the wire's NULL-string marker)
 	}
 	if !res.MaxOK {
 		return "maxsize-differs", fmt.Sprintf("GetClassAdWithMaxSize (64 MiB budget) fails or consumes other bytes than GetClassAd: %v", res.MaxErr)
@@ -798,7 +797,7 @@ var directed = []string{
 	`"a" + "b"`, `"a" "b"`, `"a"  "b" "c"`, `"a"b"`, `"a"/*c*/"b"`, `"a" // x`, "007", "-007", "00", "-0", "0", "-00", "1.", "-1.", "1.e5", "1.5e", "1.5e+", "1.5e+3", "1.5E-3", "0x1.8p1", "-0x1.8p1", "0x1p-2",
 	"0X1.P+2", "1_0.5", "1_000", "1__0.5", "_1.5", "1.5_", "falſe", "FALſE", "trıe", "K", "true", "TRUE", "tRuE", "false", "FALSE", "fAlSe", " true ", " true ", "true　", "\u0085false", "true​",
 	"true.x", "my.true", "MY.x", "target.false", "truex", "true1", "true_", "true false", "-true", "+false", "!true", "true;", "1;", "1]", "-5", "+5", "- 5", "+ 5", "-  5  ", "--5", "-+5", "+-5", "-(5)", "(5)", "5 5", "5a", "5e", "5e5", "5E+5", "-5e-5", "5.5.5",
-	".5", "-.5", "+.5", ". 5", ".", "-", "+", "", " ", "\"", "\"\"", "\"\\\"", "\"\\\\\"", "\"\\\"\"", `"\t\n\r\b\f\'"`, `"\a"`, `"\S"`, `"\0"`, `"\00"`, `"\000"`, `"\001"`, `"\1"`, `"\18"`, `"\101"`, `"\377"`, `"\400"`, `"\477"`, `"\777"`, `"\9"`, `"\08"`,
+	".5", "-.5", "+.5", ". 5", ".", "-", "+", "", " ", "\"", "\"\"", "\"\\\"", "\"\\\\\"", "\"\\\"\"", `"\t\n\r\b\f\'"`, `"\a"`, `"\S"`, `"\\\\server\Share"`, `"C:\\\\dir\l"`, `"\\\\\S"`, `"a\\\\b\q\"c"`, `"\0"`, `"\00"`, `"\000"`, `"\001"`, `"\1"`, `"\18"`, `"\101"`, `"\377"`, `"\400"`, `"\477"`, `"\777"`, `"\9"`, `"\08"`,
 	"\"\xff\"", "\"\xc3\xa9\"", "\"\xc3\"", "\"\xe2\x9c\x93\"", "\"\xe2\x9c\"", "\"\xf0\x9f\x99\x82\"", "\"\xed\xa0\x80\"", "\"\xc0\x80\"", "\"\xf4\x90\x80\x80\"", "\"\xef\xbf\xbd\"", "\"a\x00b\"", "\"line1\nline2\"", "\"tab\there\"",
 	"9223372036854775807", "9223372036854775808", "-9223372036854775808", "--9223372036854775808", "+-9223372036854775808", "- -5", "-9223372036854775809", "+9223372036854775808", "- 9223372036854775808", "18446744073709551616", "99999999999999999999", "-99999999999999999999",
 	"1e400", "1.0e400", "-1.0e400", "1.0e308", "1.8e308", "1.7976931348623157e308", "1.7976931348623159e308", "1.0e-400", "-1.0e-400", "4.9e-324", "2.0e-324", "0.0", "-0.0", "0.0e0", "-0.0e-5", "00.5", "007.5", "-007.50",
@@ -856,6 +855,25 @@ func litCase(c *core.Ctx, text string) {
 	if t != nil {
 		c.Count("directed-shortcut-" + t.Kind)
 	}
+}
+
+// refOldString: the content of an OLD-ClassAd string literal as HTCondor reads it (Lexer::tokenizeStringOld):
+// \" is a quote, every other byte - a lone or doubled backslash included - is literal; an
+// unescaped quote inside means the text is not one string.
+func refOldString(inner string) (string, bool) {
+	var out []byte
+	for i := 0; i < len(inner); i++ {
+		if inner[i] == '\\' && i+1 < len(inner) && inner[i+1] == '"' {
+			out = append(out, '"')
+			i++
+			continue
+		}
+		if inner[i] == '"' {
+			return "", false
+		}
+		out = append(out, inner[i])
+	}
+	return string(out), true
 }
 
 // splitCase: one whole expression string through parseAndInsertExpression (hook). Reference, written
@@ -1140,6 +1158,11 @@ func gen(c *core.Ctx) error {
 	var oldRec func(p string, k int)
 	oldRec = func(p string, k int) {
 		got, ok := message.VerifDecodeOldClassAdString(p)
+		c.OracleCheck()
+		if want, wok := refOldString(p); ok != wok || (ok && got != want) {
+			c.OracleFail("oldstring-differs", fmt.Sprintf("old-ClassAd string %q: the fallback decoder yields %q (ok=%v); old ClassAd syntax (only \\\" is an escape, every other backslash is literal, an unescaped quote ends the string) yields %q (ok=%v)", p, got, ok, want, wok),
+				map[string]interface{}{"kind": "old", "text": []byte(p)})
+		}
 		c.AddCase(fmt.Sprintf("COld %s %s", core.Hex([]byte(p)), core.Opt(ok, core.Hex([]byte(got)))), map[string]interface{}{"kind": "old", "text": []byte(p)})
 		c.Count("old-string")
 		if k == 0 {
@@ -1282,12 +1305,13 @@ func gen(c *core.Ctx) error {
 		c.Count("wire-bad-type-name")
 	}
 	// outside the hypotheses of the round-trip theorems (known findings): an attribute name that needs
-	// quoting because it contains '=', and a string starting with the NULL-string marker byte
+	// quoting because it contains '=', and (consumption only) strings that are not UTF-8 text
 	{
 		if err := wireCase(c, wire{Kind: "wire", Man: true, Attrs: []wattr{{"a=b", "5"}, {"Z", "1"}}, My: "Job"}); err != nil {
 			return err
 		}
-		if err := wireCase(c, wire{Kind: "wire", Raw: true, Pad: 3, Attrs: []wattr{{"Name", `"x"`}}, My: "\xadfoo", Tg: "Job"}); err != nil {
+		// not text (0xAD can never start valid UTF-8 and is the NULL-string marker): consumption only
+		if err := wireCase(c, wire{Kind: "wire", Raw: true, NonText: true, Pad: 3, Attrs: []wattr{{"Name", `"x"`}, {"Bin", "\"\xff\xfe\""}}, My: "\xadfoo", Tg: "\xc3"}); err != nil {
 			return err
 		}
 	}
@@ -1320,6 +1344,12 @@ func replay(raw json.RawMessage) error {
 		return err
 	}
 	switch d.Kind {
+	case "old":
+		got, ok := message.VerifDecodeOldClassAdString(string(d.Text))
+		if want, wok := refOldString(string(d.Text)); ok != wok || (ok && got != want) {
+			return fmt.Errorf("oldstring-differs: %q decodes to %q (ok=%v), old ClassAd syntax yields %q (ok=%v)", d.Text, got, ok, want, wok)
+		}
+		return nil
 	case "split":
 		e := string(d.Text)
 		ad := classad.New()
